@@ -85,6 +85,40 @@ theorem C02_refused_no_privilege (C : Crypto) (s : Sys) (c : Nat) (body : Bytes)
     repeat' split
     all_goals simp_all
 
+/-- **Identity is what was proven.** A refused pair-verify request — also one sent on an already
+    verified connection and naming somebody else (e.g. an admin) with a bogus proof — leaves
+    `client_uuid` and the privilege flag untouched: the connection stays authorised as the
+    controller that proved itself, so a following `POST /pairings` is judged for *that* controller. -/
+theorem C02_refused_keeps_identity (C : Crypto) (s : Sys) (c : Nat) (body : Bytes)
+    (h : upgrades (step C s (.verify c body)).2 = false) :
+    ((step C s (.verify c body)).1.conns c).client = (s.conns c).client ∧
+    ((step C s (.verify c body)).1.conns c).verified = (s.conns c).verified := by
+  rw [upgrades_step] at h
+  have hn : (handlePairVerify C s.pairings s.clock (s.conns c) body).2.shared = none := by
+    cases hs : (handlePairVerify C s.pairings s.clock (s.conns c) body).2.shared with
+    | none => rfl
+    | some k => simp [hs] at h
+  have := handler_refused_identity C s.pairings s.clock (s.conns c) body hn
+  simp only [step, setConn_same]
+  rw [(installCipher_fields _ _).2.2, (installCipher_fields _ _).2.1]
+  exact this
+
+/-- list-pairings is served only on a verified connection whose recorded controller is an admin
+    now; together with `C02_refused_keeps_identity` / `C02_upgrade_effect` that controller is the
+    one whose proof was accepted. -/
+theorem C02_list_only_proven_admin (C : Crypto) (s : Sys) (c n : Nat)
+    (h : (step C s (.list c)).2 = some ⟨.listed n, none⟩) :
+    (s.conns c).verified = true ∧ ∃ me, (s.conns c).client = some me ∧ isAdmin s.pairings me = true := by
+  simp only [step, Option.some.injEq, Out.mk.injEq, and_true] at h
+  split at h
+  · simp at h
+  · next me hme =>
+    split at h
+    · simp [authErr] at h
+    · next hc =>
+      simp only [not_or, Bool.not_eq_false] at hc
+      exact ⟨hc.1, me, hme, hc.2⟩
+
 /-- **Own context (non-interference).** Whatever happens on other connections or to the pairing
     map leaves the handler state of `c` — in particular its context — untouched: the context used
     by the iff is the one `c`'s own first step created. -/
@@ -246,6 +280,7 @@ theorem C02_removed_id_refused (C : Crypto) (s : Sys) (u : Uuid) (ops : List Op)
       · exact h0
     | verify d b => simpa [step] using h0
     | get d => simpa [step] using h0
+    | list d => simpa [step] using h0
 
 /-- Re-keyed final message → refused (`IdealAEAD`): data sealed under any key other than the
     pre-session key of this connection's own context (another connection's, a stale exchange's,
